@@ -116,6 +116,36 @@ theorem accepts_iff_reciprocal (facedim : String) (dsDims : List String) (tbl : 
   · intro h
     rw [key.mpr h]; exact hfinal
 
+/-- … and a table that names an axis the grid does not have is refused whatever its links are
+    (also when that entry holds no links at all), so the hypothesis of `accepts_iff_reciprocal`
+    excludes nothing that could be accepted -/
+theorem unknown_axis_key_refused (facedim : String) (dsDims : List String) (tbl : FaceTable)
+    (axes : List String) (faces : List Nat)
+    (hbad : ∃ fe ∈ tbl, ∃ ae ∈ fe.2, axes.contains ae.1 = false) :
+    ∃ e, assignFaceConnections [facedim] dsDims tbl axes faces = .error e := by
+  unfold assignFaceConnections
+  simp only
+  split
+  · exact ⟨_, rfl⟩
+  · cases hc : checkAllLinks tbl axes faces with
+    | error e => exact ⟨e, rfl⟩
+    | ok u =>
+      cases u
+      simp only
+      cases hk : checkAxisKeys tbl axes with
+      | error e => exact ⟨e, rfl⟩
+      | ok u =>
+        cases u
+        exfalso
+        unfold checkAxisKeys at hk
+        rw [forAllM_ok] at hk
+        obtain ⟨fe, hfe, ae, hae, hcont⟩ := hbad
+        have h2 := hk fe hfe
+        rw [forAllM_ok] at h2
+        have h3 := h2 ae hae
+        rw [hcont] at h3
+        simp at h3
+
 /-- more than one face dimension (or none) is refused … -/
 theorem one_face_dim_only (fcKeys dsDims : List String) (tbl : FaceTable) (axes : List String)
     (faces : List Nat) (h : fcKeys.length ≠ 1) :
